@@ -97,7 +97,7 @@ func rootOf(v ssa.Value) (root ssa.Value, fields []ssa.Instruction) {
 const freshOnly = "~"
 
 func freshable(k string) bool {
-	return strings.HasPrefix(k, "F:") || strings.HasPrefix(k, "E:") || strings.HasPrefix(k, "C:") || strings.HasPrefix(k, "MH:") || strings.HasPrefix(k, "MV:")
+	return k == "big" || strings.HasPrefix(k, "F:") || strings.HasPrefix(k, "E:") || strings.HasPrefix(k, "C:") || strings.HasPrefix(k, "MH:") || strings.HasPrefix(k, "MV:")
 }
 
 // writeClass computes the heap class written by a store through address value addr.
@@ -136,6 +136,7 @@ func (fi *FrameInfo) writeClass0(fr *Frame, addr ssa.Value, ws map[string]bool) 
 		}
 		fi.pointeeClasses(x.Type().(*types.Pointer).Elem(), ws)
 	case *ssa.Global:
+		regSort("G:"+x.Pkg.Pkg.Path()+"."+x.Name(), func() Sort { return SortOf(x.Type().(*types.Pointer).Elem()) })
 		ws["G:"+x.Pkg.Pkg.Path()+"."+x.Name()] = true
 	case *ssa.FieldAddr:
 		root, _ := rootOf(x)
@@ -151,6 +152,7 @@ func (fi *FrameInfo) writeClass0(fr *Frame, addr ssa.Value, ws map[string]bool) 
 				return
 			}
 		case *ssa.Global:
+			regSort("G:"+r.Pkg.Pkg.Path()+"."+r.Name(), func() Sort { return SortOf(r.Type().(*types.Pointer).Elem()) })
 			ws["G:"+r.Pkg.Pkg.Path()+"."+r.Name()] = true
 			return
 		}
@@ -228,6 +230,7 @@ func (fi *FrameInfo) pointeeClasses(t types.Type, ws map[string]bool) {
 	case *types.Array:
 		ws[elemClass(u.Elem())] = true
 	default:
+		regSort("C:"+typeKey(t), func() Sort { return SArr(SRef, SortOf(t)) })
 		ws["C:"+typeKey(t)] = true
 	}
 }
@@ -381,6 +384,13 @@ func (fi *FrameInfo) callEffects(fr *Frame, c *ssa.CallCommon, ws map[string]boo
 			}
 			return
 		}
+		if fr == nil && isBigMethod(v) && len(c.Args) > 0 && freshBigRecv(c.Args[0], 0) {
+			// a big.Int method writes its receiver only: when that is an integer this function
+			// allocated itself (new(big.Int).Add(...), also chained), integers the caller
+			// already held keep their values
+			ws[freshOnly+"big"] = true
+			return
+		}
 		*callees = append(*callees, v)
 		return
 	case *ssa.MakeClosure:
@@ -513,6 +523,24 @@ func (fi *FrameInfo) of(f *ssa.Function, c *ssa.CallCommon) map[string]bool {
 // bodyOf is the inferred write set of f (its contract's explicit assigns included).
 func (fi *FrameInfo) bodyOf(f *ssa.Function) map[string]bool {
 	return fi.of(f, nil)
+}
+
+// freshBigRecv: v is new(big.Int), or the result of a big.Int method whose receiver is.
+func freshBigRecv(v ssa.Value, depth int) bool {
+	if depth > 8 {
+		return false
+	}
+	switch x := v.(type) {
+	case *ssa.Alloc:
+		return x.Heap && isBigInt(x.Type().(*types.Pointer).Elem())
+	case *ssa.Call:
+		if f := x.Call.StaticCallee(); f != nil && isBigMethod(f) && len(x.Call.Args) > 0 {
+			if r := f.Signature.Results(); r.Len() == 1 && types.Identical(r.At(0).Type(), x.Call.Args[0].Type()) {
+				return freshBigRecv(x.Call.Args[0], depth+1)
+			}
+		}
+	}
+	return false
 }
 
 func isBigMethod(f *ssa.Function) bool {
